@@ -269,7 +269,8 @@ func c11Build[T any](e *c11Env, api *c11API[T], t *c11Tree, v int) *fpgo.MonadIO
 	panic("c11: bad tree")
 }
 
-func c11RunCase[T any](api *c11API[T], t *c11Tree, ops []string) string {
+func c11RunCase[T any](api *c11API[T], t *c11Tree, ops []string, allowSame bool) string {
+	sameUnbuffered := func(o, s int) bool { return !allowSame && o == s && (o == 1 || o == 2) }
 	e := &c11Env{names: map[int64]string{fpgo.VerifGoID(): "m"}}
 	e.h[1] = fpgo.Handler.New()
 	e.h[2] = fpgo.Handler.New()
@@ -356,7 +357,7 @@ func c11RunCase[T any](api *c11API[T], t *c11Tree, ops []string) string {
 			case len(f) != 1:
 				return "bad-op"
 			case op == "sg":
-				if pending != 0 || ob[cur] == 0 {
+				if pending != 0 || ob[cur] == 0 || sameUnbuffered(ob[cur], sub[cur]) {
 					return "bad-op"
 				}
 				e.mu.Lock()
@@ -389,7 +390,7 @@ func c11RunCase[T any](api *c11API[T], t *c11Tree, ops []string) string {
 				v := api.to(m.Eval())
 				return "v=" + strconv.Itoa(v) + " " + flush()
 			case op == "s":
-				if pending != 0 && (ob[cur] == pending || sub[cur] == pending) {
+				if sameUnbuffered(ob[cur], sub[cur]) || (pending != 0 && (ob[cur] == pending || sub[cur] == pending)) {
 					return "bad-op"
 				}
 				m.Subscribe(api.onNext(func(x T) { e.emit("D(" + strconv.Itoa(api.to(x)) + ")") }))
@@ -470,10 +471,12 @@ func c11Run(line string) string {
 			ops = append(ops, o)
 		}
 	}
-	if toks[0] == "i" {
-		return c11RunCase(c11Iface, t, ops)
+	// "gs" / "is": the library under test lets a handler post to itself (see design.d/C11.md)
+	allowSame := toks[0] == "gs" || toks[0] == "is"
+	if toks[0] == "i" || toks[0] == "is" {
+		return c11RunCase(c11Iface, t, ops, allowSame)
 	}
-	return c11RunCase(c11Generic, t, ops)
+	return c11RunCase(c11Generic, t, ops, allowSame)
 }
 
 // ---- generators
@@ -655,11 +658,15 @@ func c11Gen(tier string, rng *rand.Rand, emit func(string)) map[string]interface
 	if tier == "thorough" {
 		maxNodes, nRandom, depth = 5, 40000, 7
 	}
+	same := ""
+	if os.Getenv("VERIF_C11_SAMEHANDLER") != "" {
+		same = "s"
+	}
 	api := func(i int) string {
 		if i%3 == 2 {
-			return "i "
+			return "i" + same + " "
 		}
-		return "g "
+		return "g" + same + " "
 	}
 	count := 0
 	put := func(t *c11Tree, script string) {
@@ -813,6 +820,7 @@ func c11Gen(tier string, rng *rand.Rand, emit func(string)) map[string]interface
 	for i := 0; i < nPrefix; i++ {
 		gtrees = append(gtrees, &c11Tree{kind: "FL", c: rng.Intn(9), kids: []*c11Tree{c11Random(rng, 1+rng.Intn(4)), c11Leaf("G", rng.Intn(9))}})
 	}
+	var late []string
 	for ti, gt := range gtrees {
 		if c11InnerHandler(gt, false) {
 			continue
@@ -824,7 +832,12 @@ func c11Gen(tier string, rng *rand.Rand, emit func(string)) map[string]interface
 				}
 				var mids []string
 				for x := 0; x <= 3; x++ {
-					if x != sb {
+					if x != sb && x == o && o != 3 {
+						// re-configured to the very handler the subscription is holding: fine for a library that snapshots the pair
+						if ti == 0 {
+							late = append(late, fmt.Sprintf("o%d ; u%d ; sg ; u%d ; g- ; b", o, sb, x))
+						}
+					} else if x != sb {
 						mids = append(mids, "u"+strconv.Itoa(x))
 						mids = append(mids, "u"+strconv.Itoa(x)+" ; o"+strconv.Itoa((o+x)%4))
 					}
@@ -852,6 +865,10 @@ func c11Gen(tier string, rng *rand.Rand, emit func(string)) map[string]interface
 			}
 		}
 	}
+	for _, sc := range late {
+		raw(gtrees[0], sc)
+		gated++
+	}
 	raw(&c11Tree{kind: "FL", c: 1, kids: []*c11Tree{c11Leaf("N", 2), c11Leaf("V", 1)}}, "D 1 11 G 3 ; D 2 12 G 4 ; r 1 ; o1 ; u2 ; sg ; u3 ; r 2 ; o2 ; u0 ; s ; r 1 ; o0 ; y ; g- ; r 2 ; e")
 	gated++
 	return map[string]interface{}{
@@ -862,4 +879,4 @@ func c11Gen(tier string, rng *rand.Rand, emit func(string)) map[string]interface
 	}
 }
 
-func init() { register("C11", &Prop{Gen: c11Gen, Run: c11Run, CaseTimeout: 5 * time.Second}) }
+func init() { register("C11", &Prop{Gen: c11Gen, Run: c11Run, CaseTimeout: 3 * time.Second}) }
